@@ -184,8 +184,9 @@ PreAt(s, e) ==
                     s2 == IF s1.cur = NoDeme /\ EnBeginAny(s1, e.d) /\ e.d \in Ids(s1) /\ Eng(s1, e.d) # "LOCAL"
                           THEN DoBegin(s1, e.d) ELSE s1
                     s3 == IF e.d \in Ids(s2) /\ EnIter(s2, e.d) THEN DoIter(s2, e.d, BatchCalls(e.b, e.d)) ELSE s2
-                    s4 == IF e.d \in Ids(s3) /\ EnGenGsc(s3, e.d) /\ s3.gen >= GensOf(s3, e.d)
-                          THEN DoGenGsc(s3, e.d, FALSE, FALSE) ELSE s3
+                    \* (how many generations make a metaepoch is mechanism: the turn ends where the deme ends it)
+                    s4 == IF e.d \in Ids(s3) /\ EnGenGsc(s3, e.d)
+                          THEN [Commit(s3, e.d) EXCEPT !.await = "lsc"] ELSE s3
                 IN IF e.d \in Ids(s4) /\ EnLsc(s4, e.d) THEN R(s4, a.errs) ELSE R(a.st, a.errs \cup {"Desync"})
       [] e.e = "gsc" /\ e.by = "step" ->
            LET a == Advance(s, e.b, e.snap, NoDeme, {}) IN
@@ -249,6 +250,14 @@ Compare(s, sn) ==
    \cup (IF counted /\ \E d \in common : SnapRec(sn, d).ev # s.D[d].evals THEN {"C03_DemeCountEqualsCalls"} ELSE {})
    \cup (IF \E d \in common : SnapRec(sn, d).me # s.D[d].me THEN {"C06_SteppedExactlyOnce"} ELSE {})
    \cup (IF \E d \in common : SnapRec(sn, d).gens # s.D[d].gens THEN {"Info_GenerationsRecorded"} ELSE {})
+   \* C05 "each still-active deme performs at most one further engine iteration": generations that the deme recorded in
+   \* its last metaepoch without a consult in between are iterations too (the model counts one iteration per consult)
+   \cup (IF \E d \in common :
+              LET r == SnapRec(sn, d) IN
+              /\ d \in DOMAIN s.wind /\ s.wind[d] >= 1 /\ Eng(s, d) \in PopEngines
+              /\ r.me = s.D[d].me /\ Len(r.gens) = Len(s.D[d].gens) /\ r.gens # <<>>
+              /\ s.wind[d] + Last(r.gens) - Last(s.D[d].gens) > 1
+         THEN {"C05_WindDownAtMostOne"} ELSE {})
    \cup (IF \E d \in common : \/ SnapRec(sn, d).lvl # s.D[d].lvl
                               \/ SnapRec(sn, d).sa # s.D[d].startedAt
                               \/ (d # RootId /\ SnapRec(sn, d).par # s.D[d].parent)
@@ -454,7 +463,7 @@ UpdMem(md, r) ==
                   !.minr = allmin,
                   !.bestset = (IF allmin = md.minr THEN @ ELSE {}) \cup UNION {bs(k) : k \in DOMAIN new},
                   !.lam = IF @ = 0 /\ new # <<>> THEN Len(new[1]) ELSE @,
-                  !.seen = TRUE, !.since = {}]
+                  !.seen = TRUE, !.since = {}, !.iters = <<>>]      \* (full snapshots are taken at metaepoch boundaries)
 
 NonEmptyGens(new) == \A k \in DOMAIN new : new[k] # <<>>
 
